@@ -42,3 +42,18 @@ Theorem C08_caches_complete :
   c08_subset c08_tree_dep c08_kd_compared = true /\ c08_subset c08_tree_dep c08_kd_stored = true.
 Proof. exact caches_complete. Qed.
 Print Assumptions C08_caches_complete.
+
+(* several grids in one process: operations on other grids leave grid j and the module constants
+   untouched, and every observation on every grid after any interleaved history is the fresh one *)
+Theorem C08_other_grids_untouched : forall ops w j,
+  Forall (fun io => fst io <> j) ops ->
+  nth_error (w_grids (c08_world_run w ops)) j = nth_error (w_grids w) j
+  /\ w_globals (c08_world_run w ops) = w_globals w.
+Proof. exact world_frame. Qed.
+Print Assumptions C08_other_grids_untouched.
+
+Theorem C08_interleaved_history : forall ops w j s v,
+  Forall AllCanon (w_grids w) -> nth_error (w_grids (c08_world_run w ops)) j = Some s ->
+  c08_observe s v = Some Canon.
+Proof. exact world_observe. Qed.
+Print Assumptions C08_interleaved_history.
